@@ -44,7 +44,7 @@ def pstep (P : Params) (p : PS) (op : POp) (m : Mem) : Out × PS × Mem :=
   | .removeLast => let r := removeLast p.st p.l1 m; ({ st := some r.1, val := r.2.1 }, { p with st := r.2.2.1, l1 := r.2.2.2.1 }, r.2.2.2.2)
   | .removeAll => let r := removeAll p.st p.l1 m; ({ st := some r.1, vals := r.2.1 }, { p with st := r.2.2.1, l1 := r.2.2.2.1 }, r.2.2.2.2)
   | .replaceAt x i => let r := replaceAt p.st p.l1 x i m; ({ st := some r.1, val := r.2.1 }, { p with st := r.2.2.1, l1 := r.2.2.2.1 }, r.2.2.2.2)
-  | .reverse => let r := reverse p.st p.l1; ({}, { p with st := r.1, l1 := r.2 }, m)
+  | .reverse => let r := reverseC p.st p.l1 m; ({}, { p with st := r.1, l1 := r.2.1 }, r.2.2)
   | .filterMut => let r := filterMut P.pred p.st p.l1 m; ({ st := some r.1 }, { p with st := r.2.1, l1 := r.2.2.1 }, r.2.2.2)
   | .swapRoles => ({}, { p with l1 := p.l2, l2 := p.l1 }, m)
 
@@ -290,7 +290,7 @@ theorem pstep_reverse (P : Params) (p : PS) (c1 c2 : List Cell) (m : Mem) (I : I
       DList.step P (absPair p c1 c2) .reverse m =
         ((pstep P p .reverse m).1, absPair (pstep P p .reverse m).2.1 c1' c2', (pstep P p .reverse m).2.2) := by
   obtain ⟨r', t, f, fr⟩ := reverse_spec p.st p.l1 c1 I.rep.r1
-  simp only [pstep, DList.step, absPair, DList.reverse_ofList]
+  simp only [pstep, DList.step, absPair, DList.reverse_ofList, reverseC_spec p.st p.l1 c1 m I.rep.r1]
   refine ⟨c1.reverse, c2, ⟨⟨r', ?_, ?_⟩, ?_, ?_⟩, ?_⟩
   · exact ⟨I.rep.r2.nodup, Seg_frame (fun b hb => fr b (fun hm => I.rep.disj b hm hb)) I.rep.r2.seg, I.rep.r2.size, I.rep.r2.head, I.rep.r2.tail⟩
   · intro y hy hy2; exact I.rep.disj y (by simpa [idsOf] using hy) hy2
